@@ -158,6 +158,61 @@ def jobs_for(pid, rep):
     return jobs
 
 
+def real_kills(recorded, jobs, n, rng):
+    """C12: re-validate sampled I/O boundaries by REALLY killing a child process there (os._exit right after
+    the call took effect).  Returns (extra traces for TLC, number of kills, mismatches with the simulated snapshot)."""
+    import os
+    import shutil
+    import subprocess
+    import driver
+    import concretise
+    cands = []
+    byid = {j[0]: j for j in jobs}
+    for t in recorded:
+        job = byid[t["id"]]
+        if job[7].get("prefill") or job[7].get("mode"):
+            continue
+        for j, e in enumerate(t["events"]):
+            if "io" in e and e["io"]["counted"] and not e["exc"] and e["a"]["op"] not in traces.READ_C01 | traces.READ_C07:
+                for k in range(len(e["io"]["counted"])):
+                    cands.append((t, j, k))
+    rng.shuffle(cands)
+    out, kills, mism = [], 0, []
+    scratch = tlc.mkscratch("kill-")
+    try:
+        th = concretise.Theme()
+        for (t, j, k) in cands[:n]:
+            d0 = os.path.join(scratch, "k%d" % kills)
+            os.makedirs(os.path.join(d0, "tmp"))
+            path = os.path.join(d0, "db.csv")
+            ops = [e["a"] for e in t["events"]]
+            spec = os.path.join(d0, "job.json")
+            with open(spec, "w") as fh:
+                json.dump({"repo": common.REPO, "path": path, "tmpdir": os.path.join(d0, "tmp"), "ai": t["auto_index"], "ops": ops, "j": j, "k": k}, fh)
+            p = subprocess.run([common.PY, os.path.join(common.VERIF, "harness", "killchild.py"), spec], stdout=subprocess.PIPE, stderr=subprocess.PIPE,
+                               env=dict(os.environ, PYTHONHASHSEED="0"), timeout=120)
+            if p.returncode != 9:
+                raise tlc.MachineryError("kill child did not die at the chosen boundary (exit %s; op %s, call %d = %s of %s): %s"
+                                         % (p.returncode, json.dumps(ops[j])[:200], k, t["events"][j]["io"]["counted"][k], t["events"][j]["io"]["counted"], p.stderr.decode()[-500:]))
+            kills += 1
+            data = open(path, "rb").read() if os.path.exists(path) else b""
+            dd = driver.Db.__new__(driver.Db)
+            dd.th, dd.ntk, dd.nfk, dd.csv_opts = th, 3, 3, {}
+            left = dd.decode_bytes(data)
+            ev = dict(t["events"][j])
+            io = dict(ev["io"])
+            io["snaps"] = [left]
+            io["snap_calls"] = ["real-kill-after:" + ev["io"]["counted"][k]]
+            ev["io"] = io
+            out.append({"id": "kill-%s-%d-%d" % (t["id"], j, k), "kind": "csv", "auto_index": t["auto_index"],
+                        "init": t["events"][j - 1]["store"] if j else t["init"], "valid0": t["events"][j - 1]["valid"] if j else t["valid0"],
+                        "events": [ev]})
+            shutil.rmtree(d0, ignore_errors=True)
+    finally:
+        shutil.rmtree(scratch, ignore_errors=True)
+    return out, kills
+
+
 def cost_pairs(recorded):
     """C16: I/O calls per single insert, by database size (the same insert on a small and a large database)."""
     by = {}
@@ -178,6 +233,12 @@ def run(pid):
     dm = csvio_model.check(thorough)
     jobs = jobs_for(pid, rep)
     recorded = traces.record_all(jobs)
+    nkills = 0
+    if pid == "C12":
+        extra, nkills = real_kills(recorded, jobs, 80 if thorough else 16, random.Random(rep.seed + 12))
+        for t in extra:
+            jobs.append((t["id"], "csv", t["auto_index"], [], [], core.NTK, core.NFK, {}))
+        recorded = recorded + extra
     verdicts, js = traces.judge(recorded)
     byid = {t["id"]: t for t in recorded}
     other = {}
@@ -237,7 +298,7 @@ def run(pid):
         "samples": [{"ops": [e["a"]["op"] for e in t["events"]][:20],
                      "io_calls_of_first_write": next(([c["call"] for c in e["io"]["calls"]] for e in t["events"] if "io" in e and e["io"]["calls"]), [])}
                     for t in recorded[:: max(1, len(recorded) // 3)][:3]],
-        "io_boundaries_checked": nbound, "api_calls_judged": nev, "failures_owned_by_other_properties": other,
+        "io_boundaries_checked": nbound, "api_calls_judged": nev, "boundaries_revalidated_by_really_killing_a_child_process": nkills, "failures_owned_by_other_properties": other,
         "design_model": dm, "exhaustive": False, "checker_cmd": js["cmd"],
     }
     rep.assumptions = ["process death only: what the kernel has accepted survives (no power-loss / page-cache model)",
